@@ -99,7 +99,7 @@ func checkC14(w *World) {
 			w.check(P, "R14.1", "entry point "+ep.Name, ep.Fn.Pos(), false, fmt.Sprintf("may write shared memory %v", bad.list()))
 		}
 	}
-	w.floor(P, "R14.1", 16)
+	w.floorSites(P, "R14.1", 16)
 
 	mainPkg := w.SSA["xsel"]
 	if mainPkg == nil {
@@ -241,7 +241,7 @@ func checkC14(w *World) {
 			w.undecided(P, "R14.2", "main: initialisation of shared state", mainFn.Pos(), "no write to package-level state found in main")
 		}
 	}
-	w.floor(P, "R14.2", 5)
+	w.floorSites(P, "R14.2", 5)
 
 	// R14.3 single stdout write
 	for _, wf := range wl {
